@@ -14,7 +14,7 @@ import (
 )
 
 var subs = []string{"", "", "a", "a/b", "a/b/c", "x y/z", "deep/er/est"}
-var dirModes = []string{"", "", "", "abs", "rel", "ergo", "absergo", "slash", "dotdot"}
+var dirModes = []string{"", "", "", "abs", "rel", "ergo", "absergo", "slash", "dotdot", "deep", "dot", "dot", "relsub"}
 
 func runLayoutGenerated(bin string, seed uint64) *RunReport {
 	sc, rng := newScenario("C18", "layout", seed)
